@@ -879,6 +879,9 @@ class ModuleVistor(NodeVisitor):
                 raise self.SkipNode()
             # Do not recreate function object, just re-push it
             self.builder.push(existing_func, lineno)
+            # Like when a new function is entered: a string in the body of the function
+            # is not the docstring of the attribute assigned before the definition.
+            self.builder.currentAttr = None
             func = existing_func
         else:
             func = self.builder.pushFunction(func_name, lineno)
